@@ -209,7 +209,12 @@ def run_case(ctx, case, count=True):
                 if count:
                     ctx.count()
             if not close_to_numpy(a, npenv[r]):
-                fails.append(("value-differs-from-numpy", f"{r}: every order gives {np.asarray(a).ravel()[:8].tolist()} shape {np.asarray(a).shape}, NumPy {np.asarray(npenv[r]).ravel()[:8].tolist()} shape {np.asarray(npenv[r]).shape}"))
+                # every schedule agrees on a value that differs from NumPy: a value defect (C01/C02), not
+                # schedule dependence and not an input mutation -> recorded in the evidence, reported, no C10 failure
+                ctx.notes["numpy_mismatch_with_all_orders_agreeing(C01)"] = ctx.notes.get("numpy_mismatch_with_all_orders_agreeing(C01)", 0) + 1
+                ex = ctx.notes.setdefault("numpy_mismatch_examples", [])
+                if len(ex) < 3:
+                    ex.append({"prog": prog, "root": r, "optimize": case["optimize"], "got": np.asarray(a).ravel()[:8].tolist(), "numpy": np.asarray(npenv[r]).ravel()[:8].tolist()})
         if count:
             kinds = tuple(sorted({type(n).__name__ for x in xs for n in x._lowered_expr.walk()}))
             ctx.count(("prog", case["optimize"], kinds), n=0)
